@@ -374,8 +374,9 @@ def makeConditionalStatus (method : Str) (q : CondReq) (r : RespIn) (completeLen
 /-- the WSGI response of `Response(body).make_conditional(environ, accept_ranges, complete_length)`:
 status, Content-Range `(first, last, length)`, Content-Length, body chunks. The body is supplied
 as the chunk list the response iterable yields; `seekable = some b` for a seekable `FileWrapper`
-with buffer size `b` (then the chunks are only used for their concatenation); `passthrough` =
-`direct_passthrough` (no Content-Length can be computed for a non-206 response). -/
+with buffer size `b` (then the chunks are only used for their concatenation); `kind`: 0 = a list
+(`is_sequence`), 1 = another iterable (made a sequence by `make_conditional` for GET/HEAD only),
+2 = `direct_passthrough` (no Content-Length can be computed for a non-206 response). -/
 structure WsgiOut where
   status : Nat
   contentRange : Option (Int × Int × Int)
@@ -384,7 +385,7 @@ structure WsgiOut where
 deriving Repr, DecidableEq
 
 def respond (method : Str) (q : CondReq) (r : RespIn) (completeLength : Option Int)
-    (acceptRanges : Bool) (chunks : List Bytes) (seekable : Option Nat) (passthrough : Bool) :
+    (acceptRanges : Bool) (chunks : List Bytes) (seekable : Option Nat) (kind : Nat) :
     Option WsgiOut :=
   let isHead := method == ['H', 'E', 'A', 'D']
   let total : Int := (chunks.flatten.length : Nat)
@@ -400,7 +401,8 @@ def respond (method : Str) (q : CondReq) (r : RespIn) (completeLength : Option I
     some ⟨206, some (a, b - 1, completeLength.getD 0), some (b - a), if isHead then [] else body⟩
   | some (304, _) => some ⟨304, none, none, []⟩
   | some (st, _) =>
-    some ⟨st, none, if passthrough then none else some total,
+    let isGetHead := method == ['G', 'E', 'T'] || isHead
+    some ⟨st, none, if kind == 0 || (kind == 1 && isGetHead) then some total else none,
       if isHead then [] else chunks.filter (!·.isEmpty)⟩
 
 end Wz.Cond
